@@ -17,8 +17,8 @@ CHECKS = {
  },
  "C01": {
   "technique": "Coq proof (inductive invariant over all schedules of the feeder/consumer/pool model) + trace validation of the real fifo_stream/Parmapper under a deterministic scheduler",
-  "text": "Theorems for every capacity, pool size, source, outcome table, preprocessor, flags, stop position and every interleaving / completion order: the outputs handed to the consumer are exactly [(0, outcome 0); ...; (k-1, outcome (k-1))] - one per input, in input order, each the function of its own input - and no exception object is delivered unless return_exceptions. The model is tied to the code by trace validation on every run (real threads under a deterministic scheduler, each logged run replayed event by event in Coq); an independent oracle recomputes expected outputs, checks completeness at the end of the iteration and that no element is submitted twice.",
-  "note": "Partial: completeness-at-termination and call-once are checked by the oracle on explored runs, their theorems are _todo. Trusted: Coq kernel + vm_compute, the hand-written model, scheduler + virtual primitives, thread-locality between logged operations; process executors not scheduled. No axioms.",
+  "text": "Theorems for every capacity, pool size, source, outcome table, preprocessor, flags, stop position and every interleaving / completion order: the outputs handed to the consumer are exactly [(0, outcome 0); ...; (k-1, outcome (k-1))] - one per input, in input order, each the function of its own input - and no exception object is delivered unless return_exceptions. The model is tied to the code by trace validation on every run (real threads under a deterministic scheduler, each logged run replayed event by event in Coq); and when the iteration completes normally the consumer has received exactly one output for every source element (C01_fifo_complete). An independent oracle recomputes expected outputs and checks that no element is submitted twice.",
+  "note": "Partial only in that call-once (worker function started at most once per element) is checked by the oracle on explored runs (theorem _todo). Trusted: Coq kernel + vm_compute, the hand-written model, scheduler + virtual primitives, thread-locality between logged operations; process executors not scheduled. No axioms.",
   "design_ref": "DESIGN.md section 5 C01",
  },
  "C05": {
@@ -44,5 +44,11 @@ CHECKS = {
   "text": "Theorems for all configurations and all interleavings with a caller's deadline allowed to expire at any step: the gather thread is never killed, and every answered request receives the servlet's result for its own input. Tie and oracle as C06, with schedules that make cancel() land before, between and after the gather thread's pop / cancelled() / set_result; every run must leave the server context normally with the gather thread alive and all non-timed-out callers answered correctly. The InvalidStateError defect found this way was repaired (fix: commit 08bbde4).",
   "note": "Partial: shutdown_completes is liveness and rests on explored runs; stream abandonment is covered through the fifo_stream cleanup model (C05), not re-modelled here. Trusted as C06. No axioms.",
   "design_ref": "DESIGN.md section 5 C07",
+ },
+ "C15": {
+  "technique": "Coq proof (induction over the hop list of the wrap/pickle/re-raise model) + differential correspondence with the real RemoteException and pickle",
+  "text": "Theorem for every exception class/args, traceback content, number of hops >= 1 and forward/re-raise pattern: class and args preserved, is_remote_exception true, the final remote traceback text contains the originally formatted traceback and is identical to it when the exception was only forwarded; a bare exception object without traceback is refused. Tie: random journeys through the real RemoteException + pickle round trips compared with the model on (wrapped?, is_remote, contains, equal); a direct oracle checks class, args, site markers of every raise, chained causes, hop-to-hop containment and EnsembleError members.",
+  "note": "Partial: EnsembleError nesting has no theorem (oracle + correspondence only). Trusted: Coq kernel + vm_compute; the hand-written model; traceback.format_exception prints str(__cause__); pickling of the exception classes themselves; a process hop is modelled by pickle.dumps/loads. No axioms.",
+  "design_ref": "DESIGN.md section 5 C15",
  },
 }
